@@ -50,7 +50,8 @@ DebugClass(t) == t \in DebugTypes
 
 \* -------------------------------- credentials ---------------------------------
 \* a credential is [kind, role, st]:
-\*   kind = "none" (no auth field) | "wrong" (a string that is no token) | "admin" (the
+\*   kind = "none" (no auth field) | "wrong" (a string that is no token; st says what it
+\*          shares with one: "", "empty", "prefix", "ext", "case", "pprefix", "pext") | "admin" (the
 \*          configured auth token) | "pair" (a pairing token with role `role` and status
 \*          st \in {"valid", "expired", "revoked"})
 \* RolesOf = the roles the property allows the endpoint to give that credential:
